@@ -57,6 +57,43 @@ Theorem C13_is_null_rewrite : forall (neg : bool) (n : bytes) (r : c13_row),
 Proof. exact sql_is_null_pred_correct. Qed.
 Print Assumptions C13_is_null_rewrite.
 
+(* IS [NOT] NULL inside a CASE that is the argument of an aggregate of a window query
+   (sum(CASE WHEN n IS [NOT] NULL THEN 1 ELSE 0 END) over the rows of one window): the sum is the
+   number of rows for which the predicate holds -- a row WITHOUT the column counts as NULL -- *)
+Theorem C13_agg_case_sum : forall (neg : bool) (n : bytes) (rows : list c13_row),
+  c13_sum_flags neg n rows =
+  N.of_nat (length (filter (fun r => if neg then col_is_not_null n r else col_is_null n r) rows)).
+Proof. exact sum_flags_count. Qed.
+Print Assumptions C13_agg_case_sum.
+
+(* ... so the IS NULL sum and the IS NOT NULL sum partition the rows of the window (= count( * )) *)
+Theorem C13_agg_case_partition : forall (n : bytes) (rows : list c13_row),
+  (c13_sum_flags false n rows + c13_sum_flags true n rows = N.of_nat (length rows))%N
+  /\ c13_partition_ok (c13_sum_flags false n rows) (c13_sum_flags true n rows) (N.of_nat (length rows)) = true.
+Proof. intros n rows. split; [apply sum_flags_partition|apply sum_flags_partition_ok]. Qed.
+Print Assumptions C13_agg_case_partition.
+
+(* max / min of the flag: "some row" / "every row" of the window satisfies the predicate *)
+Theorem C13_agg_case_max : forall (neg : bool) (n : bytes) (rows : list c13_row),
+  c13_max_flags neg n rows = 1%N <->
+  exists r, In r rows /\ (if neg then col_is_not_null n r else col_is_null n r) = true.
+Proof. exact max_flags_exists. Qed.
+Print Assumptions C13_agg_case_max.
+
+Theorem C13_agg_case_min : forall (neg : bool) (n : bytes) (rows : list c13_row),
+  c13_min_flags neg n rows = 1%N <->
+  forall r, In r rows -> (if neg then col_is_not_null n r else col_is_null n r) = true.
+Proof. exact min_flags_forall. Qed.
+Print Assumptions C13_agg_case_min.
+
+(* non-vacuity: window {s:'ab'} {s:NULL} {} {s:'cd'}: two rows IS NULL (the NULL one and the absent one) *)
+Example C13_agg_case_example :
+  let s := [115]%N in
+  let w : list c13_row := [[(s, Some [97;98]%N)]; [(s, None)]; []; [(s, Some [99;100]%N)]] in
+  c13_sum_flags false s w = 2%N /\ c13_sum_flags true s w = 2%N /\ c13_max_flags false s [[]] = 1%N
+  /\ c13_min_flags true s w = 0%N.
+Proof. cbn. repeat split; reflexivity. Qed.
+
 (* history: the matcher as written before the fix (literal test first) was wrong (F4) *)
 Theorem C13_like_asis_refuted : exists t p, like_match_asis t p = Some false /\ like p t = true.
 Proof. exact like_asis_refuted. Qed.
